@@ -33,6 +33,7 @@ def run(ctx):
     ctx.do(MI.rule_inv3)
     ctx.do(MI.rule_pinv1)
     ctx.do(MI.rule_ori1)
+    ctx.do(MI.rule_pair1)
     ctx.do(MI.rule_nonneg1, [CORE])
     ctx.do(P.rule_roles)
     ctx.do(D.rule_t1, ENTRIES,
